@@ -69,7 +69,22 @@ def oracle(case):
     kw = {"ignore_data": True} if case.get("ignore_data") else {}
     if kw:
         out.cls("ignore_data")
-    las = read_spec(spec, mnemonic_case=mc, engine=case.get("engine", "numpy"), **kw)
+    if case.get("reuse"):
+        # the same LASFile object has read another file before (comma-delimited, wrapped, version 1.2, other NULL):
+        # what steers the parsing of THIS file is this file alone
+        import io
+        import lasio
+        from vlib.api import attempt
+        prior = ("~Version\nVERS. 1.2 : v\nWRAP. YES : w\nDLM. COMMA : d\n~Well\nSTRT.FT 1 : s\nSTOP.FT 2 : s\nSTEP.FT 1 : s\n"
+                 "NULL. 12.1 : n\nCOMP. prior company : c\n~Curves\nDEPT.FT : d\nAAA. : a\n~A\n1\n12.1\n2\n3\n")
+        # (only sections every generated file has: what becomes of sections the new file lacks is not part of the statement)
+        obj = attempt(lasio.read, prior)
+        las = obj if is_raised(obj) else attempt(obj.read, io.StringIO(lastext.render(spec)), mnemonic_case=mc, engine=case.get("engine", "numpy"), **kw)
+        if not is_raised(las):
+            las = obj
+        out.cls("second-read-into-the-same-object")
+    else:
+        las = read_spec(spec, mnemonic_case=mc, engine=case.get("engine", "numpy"), **kw)
     lowtag = "lower-title" if lower else "upper"
     if is_raised(las):
         out.fail("read-raises|%s|%s" % (las.bucket, lowtag), "%s\n%s" % (las, spec_summary(spec)))
@@ -119,7 +134,9 @@ def specs(draw, lower_titles=True, steering=True):
         cells[0][1] = real_null
 
     def steer_item(kind):
-        m, v = draw(st.sampled_from(STEER))
+        # ~Well may hold items called VERS / WRAP / DLM and ~Version one called NULL: each steers from its OWN section only
+        pool = STEER if kind not in ("V", "W") else [x for x in STEER if (x[0].upper() == "NULL") == (kind == "V")]
+        m, v = draw(st.sampled_from(pool))
         v = v.format(otherv=otherv, cell=fake_null)
         steer_used.append([kind, m])
         return lastext.item(m, "", v, t("steer"))
@@ -129,6 +146,10 @@ def specs(draw, lower_titles=True, steering=True):
           lastext.item("STEP", "M", "1", t("de")), lastext.item("NULL", "", real_null, t("dn"))]
     for _ in range(draw(st.integers(0, 3))):
         wl.append(lastext.item(t("W"), draw(st.sampled_from(["", "M", "ft"])), t("wv"), t("wd")))
+    if steering and draw(st.integers(0, 7)) == 0:
+        wl.append(steer_item("W"))
+    if steering and draw(st.integers(0, 7)) == 0:
+        vsec["lines"].append(steer_item("V"))
     wsec = lastext.section("W", title("W"), wl)
     cl = []
     for k in range(ncurves):
@@ -183,6 +204,8 @@ def specs(draw, lower_titles=True, steering=True):
             "engine": draw(st.sampled_from(["numpy", "normal"])), "steer": steer_used}
     if draw(st.integers(0, 7)) == 0:
         case["ignore_data"] = True  # header sections are attributed the same way when the data are not wanted
+    elif draw(st.integers(0, 5)) == 0:
+        case["reuse"] = True
     return case
 
 
